@@ -413,6 +413,27 @@ fn main() {
                     }
                 }
             }
+            // older data of the evolution families loaded by later definitions through faulty readers
+            if a.shard.map(|(k, _)| k == 0).unwrap_or(true) {
+                for (fam, i, j, run) in zoo_gen::iofault_pairs() {
+                    if let Some(f) = &a.filter {
+                        if !fam.contains(f.as_str()) {
+                            continue;
+                        }
+                    }
+                    let mut r = Rng::new(name_seed(a.seed, fam, 800 + (i * 16 + j) as u64));
+                    for _ in 0..a.cases {
+                        for l in run(&mut r, 6) {
+                            if let Some(k) = l.strip_prefix("#stat ") {
+                                let (k, v) = k.rsplit_once(' ').unwrap();
+                                *stats.entry(k.to_string()).or_default() += v.parse::<u64>().unwrap();
+                            } else {
+                                writeln!(out, "{}", l).unwrap();
+                            }
+                        }
+                    }
+                }
+            }
             for (k, v) in stats {
                 writeln!(out, "#stat {} {}", k, v).unwrap();
             }
@@ -913,6 +934,7 @@ fn main() {
                                     for (kind, rep) in replies.iter().skip(1) {
                                         if rep != first {
                                             writeln!(out, "!C05 container-changes-load-result family={} saved_by=v{} loaded_by=v{} plain={} {}={}", key, i, j, &first[..first.len().min(120)], kind.name(), &rep[..rep.len().min(120)]).unwrap();
+                                            writeln!(out, "!C03 container-changes-load-result family={} saved_by=v{} loaded_by=v{} plain={} {}={}", key, i, j, &first[..first.len().min(120)], kind.name(), &rep[..rep.len().min(120)]).unwrap();
                                         }
                                     }
                                 }
@@ -981,6 +1003,12 @@ fn main() {
                 for &v in &e.versions {
                     let sb = (e.schema_bytes)(v, 2);
                     writeln!(out, "(schema @{} {})\t(ok {})", e.name, v, hex(&sb)).unwrap();
+                    // at an older version the tags of this enum are not consecutive (a variant was inserted in the
+                    // middle later): the generic readers here take tags by position, which is not what is claimed
+                    let sparse = e.tags.contains(&"sparse-tags") && v != e.current();
+                    if sparse {
+                        continue;
+                    }
                     // the model's verdict on faithfulness; the implementation side claims it for every type
                     writeln!(out, "(faithful @{} {})\t(ok true)", e.name, v).unwrap();
                     let (schema, _) = schemagen::de_schema(&sb, 2).expect("zoo schema");
@@ -1029,6 +1057,36 @@ fn main() {
         // header corruptions; direct round-trip oracle on all four containers (C01)
         "files" => {
             let mut stats: BTreeMap<String, u64> = BTreeMap::new();
+            if a.filter.is_none() && a.shard.map(|(k, _)| k == 0).unwrap_or(true) {
+                // one value larger than a bzip2 block (900 kB) that does not compress: the encoder then takes the
+                // data in pieces, the compressed payload must still be the plain one
+                use std::io::Read as _;
+                let mut r = Rng::new(name_seed(a.seed, "files-big", 1));
+                let big: Vec<u8> = (0..(1_300_000 + r.below(300_000) as usize)).map(|_| r.next() as u8).collect();
+                let words: Vec<u32> = (0..300_000).map(|_| r.next() as u32).collect();
+                let value = (big, words);
+                let plain = savefile::save_to_mem(0, &value).unwrap();
+                let mut comp = Vec::new();
+                let saved = std::panic::catch_unwind(std::panic::AssertUnwindSafe(|| savefile::save_compressed(&mut comp, 0, &value)));
+                *stats.entry("files-big-compressed".into()).or_default() += 1;
+                match saved {
+                    Ok(Ok(())) => {
+                        let mut inner = Vec::new();
+                        let ok = comp.len() > 16 && bzip2::read::BzDecoder::new(&comp[16..]).read_to_end(&mut inner).is_ok();
+                        if !ok || inner[..] != plain[16..] {
+                            writeln!(out, "!C02 compressed-payload-is-not-the-plain-encoding type=(Vec<u8>,Vec<u32>) plain={} decompressed={}", plain.len() - 16, inner.len()).unwrap();
+                            writeln!(out, "!C01 compressed-payload-is-not-the-plain-encoding type=(Vec<u8>,Vec<u32>) plain={} decompressed={}", plain.len() - 16, inner.len()).unwrap();
+                        }
+                        match std::panic::catch_unwind(std::panic::AssertUnwindSafe(|| savefile::load::<(Vec<u8>, Vec<u32>)>(&mut &comp[..], 0))) {
+                            Ok(Ok(back)) if back == value => {}
+                            Ok(Ok(_)) => writeln!(out, "!C01 round-trip-changes-value kind=compressed type=(Vec<u8>,Vec<u32>) len={}", value.0.len()).unwrap(),
+                            Ok(Err(e)) => writeln!(out, "!C01 saved-file-does-not-load kind=compressed type=(Vec<u8>,Vec<u32>) len={} got={}", value.0.len(), err_class(&e)).unwrap(),
+                            Err(_) => writeln!(out, "!C01 load-panics kind=compressed type=(Vec<u8>,Vec<u32>) got={}", panic_class(&last_panic())).unwrap(),
+                        }
+                    }
+                    other => writeln!(out, "!C01 save-failed kind=compressed type=(Vec<u8>,Vec<u32>) len={} got={:?}", value.0.len(), other.map(|r| r.map_err(|e| err_class(&e))).map_err(|_| "panic")).unwrap(),
+                }
+            }
             for e in selected(&reg, &a) {
                 let cur = e.current();
                 let mut r = Rng::new(name_seed(a.seed, &e.name, 2000));
